@@ -2,6 +2,9 @@ package fingerprint
 
 import (
 	"context"
+	"os"
+	"path/filepath"
+	"time"
 
 	"github.com/go-task/task/v3/internal/logger"
 	"github.com/go-task/task/v3/taskfile/ast"
@@ -129,4 +132,75 @@ func IsTaskUpToDate(
 	// If no status or sources are set, the task should always run
 	// i.e. it is never considered "up-to-date"
 	return false, nil
+}
+
+// TaskState is the fingerprint of a task's sources as it was just before the
+// task's commands started. It is stored (Record) only after they have all run
+// successfully, so that an attempt that fails, is cancelled or is killed never
+// makes a later run skip the task.
+type TaskState struct {
+	task     *ast.Task
+	method   string
+	tempDir  string
+	checksum string
+	at       time.Time
+}
+
+// SnapshotTaskState computes the fingerprint of the task's sources now.
+func SnapshotTaskState(t *ast.Task, method string, tempDir string) (*TaskState, error) {
+	state := &TaskState{task: t, method: method, tempDir: tempDir, at: time.Now()}
+	if len(t.Sources) == 0 {
+		return state, nil
+	}
+	if method == "checksum" {
+		var err error
+		if state.checksum, err = NewChecksumChecker(tempDir, false).checksum(t); err != nil {
+			return nil, err
+		}
+	}
+	return state, nil
+}
+
+// Invalidate removes what an earlier successful run recorded: the commands
+// are about to run again, and until they have succeeded nothing may say that
+// the task is up to date.
+func (state *TaskState) Invalidate() {
+	if state == nil || len(state.task.Sources) == 0 {
+		return
+	}
+	switch state.method {
+	case "checksum":
+		_ = os.Remove(NewChecksumChecker(state.tempDir, false).checksumFilePath(state.task))
+	case "timestamp":
+		_ = os.Remove(NewTimestampChecker(state.tempDir, false).timestampFilePath(state.task))
+	}
+}
+
+// Record stores the fingerprint for the next up-to-date check.
+func (state *TaskState) Record() error {
+	if state == nil || len(state.task.Sources) == 0 {
+		return nil
+	}
+	switch state.method {
+	case "checksum":
+		checksumFile := NewChecksumChecker(state.tempDir, false).checksumFilePath(state.task)
+		if err := os.MkdirAll(filepath.Dir(checksumFile), 0o755); err != nil {
+			return err
+		}
+		return os.WriteFile(checksumFile, []byte(state.checksum+"\n"), 0o644)
+	case "timestamp":
+		timestampFile := NewTimestampChecker(state.tempDir, false).timestampFilePath(state.task)
+		if err := os.MkdirAll(filepath.Dir(timestampFile), 0o755); err != nil {
+			return err
+		}
+		if _, err := os.Stat(timestampFile); err != nil {
+			f, err := os.Create(timestampFile)
+			if err != nil {
+				return err
+			}
+			f.Close()
+		}
+		return os.Chtimes(timestampFile, state.at, state.at)
+	}
+	return nil
 }
